@@ -129,16 +129,22 @@ func (SlidingWindow) New(cfg Config) fiber.Handler {
 			e = manager.get(key)
 			// Take the hit back from the window it was counted in, which by now may
 			// be the previous one; it must never be subtracted from a later window.
-			switch e.exp {
-			case windowExp:
-				e.currHits--
-				remaining++
-				manager.set(key, e, cfg.Expiration)
-			case windowExp + expiration:
-				e.prevHits--
-				remaining++
-				manager.set(key, e, cfg.Expiration)
-			default:
+			ts = uint64(utils.Timestamp())
+			if ts < e.exp+expiration {
+				// Keep the entry until the end of the next window, like the update above does,
+				// otherwise its hits are forgotten before they stop being weighed in.
+				ttl := time.Duration(e.exp+expiration-ts) * time.Second //nolint:gosec // Not a concern
+				switch e.exp {
+				case windowExp:
+					e.currHits--
+					remaining++
+					manager.set(key, e, ttl)
+				case windowExp + expiration:
+					e.prevHits--
+					remaining++
+					manager.set(key, e, ttl)
+				default:
+				}
 			}
 			// Unlock entry
 			mux.Unlock()
